@@ -857,6 +857,9 @@ def call_method(interp, recv, name, args, kwargs):
         if sep is not None and isinstance(maxsplit, int) and maxsplit == -1 and isinstance(sep, str) and sep != '':
             # all splits: a sequence of strings of unknown contents (weak model); its length is
             # count(sep) + 1 for a single-character separator, at least 1 otherwise
+            if len(sep) == 1 and name == 'split' and aligning(interp):
+                from . import mlist
+                return mlist.split_all(interp, t, sep)
             from .api import ListOf, Str as _Str
             out = ListOf(_Str, min_len=1).make(interp, 'split')
             if len(sep) == 1:
